@@ -1,6 +1,6 @@
 (* C02 — Integer solutions of the polyhedron are exactly the satisfying configurations.
    Only statements, `exact`, non-vacuity examples and Print Assumptions live here. *)
-Require Import Puan.Base Puan.Plog Puan.Sem Puan.EncodeFacts Puan.NegateFacts Puan.Errors Puan.ErrorsSpec Puan.Validated.
+Require Import Puan.Base Puan.Plog Puan.Sem Puan.EncodeFacts Puan.NegateFacts Puan.Errors Puan.ErrorsSpec Puan.Validated Puan.Link.
 Open Scope string_scope.
 
 (* no valid configuration is lost: a satisfying leaf assignment extends to a point of the
@@ -34,6 +34,21 @@ Theorem C02_sound :
 Proof. exact encode_sound. Qed.
 Print Assumptions C02_sound.
 
+(* the same at the level of what to_ge_polyhedron hands out — the dense matrix and the column list
+   (ids with bounds): any integer vector within the column bounds that satisfies every row makes
+   the model true at the leaf values it assigns.  `cols_cover` (every occurrence below the root is
+   a column with its own bounds) and distinct column ids hold for validated models (one definition
+   per id); the root is not a column of the asserted polyhedron. *)
+Theorem C02_sound_dense :
+  forall (p : prop) (cols : list (ident * (Z * Z))) (x : list Z),
+    is_var p = false -> plain_shape p -> solver_safe p = true ->
+    NoDup (map fst cols) -> cols_cover p cols -> ~ In (id_of p) (map fst cols) ->
+    Forall2 (fun b v => fst b <= v <= snd b) (map snd cols) x ->
+    Forall (sat_dense x) (map (dense (map fst cols)) (encode true p)) ->
+    eval (col_lookup (map fst cols) x) p = 1.
+Proof. exact dense_sound. Qed.
+Print Assumptions C02_sound_dense.
+
 (* negation re-establishes solver-safe form (so C02_sound applies to Not(...) models) *)
 Theorem C02_negate_safe :
   forall (genid : genid_t) (p : prop),
@@ -53,6 +68,27 @@ Print Assumptions C02_unsafe_needs_guard.
 (* Non-vacuity of C02_sound: S = Any(B = All(a,b), c) is solver safe; x = {a=b=B=1, c=0}. *)
 Definition c02_s : prop := Node (mk KAny) "S" false 0 1 1 1 [Node (mk KAll) "B" false 0 1 1 2 [Var "a" 0 1; Var "b" 0 1]; Var "c" 0 1].
 Definition c02_y : ident -> Z := fun i => if String.eqb i "c" then 0 else 1.
+(* ... and of C02_sound_dense: the model's own column list and matrix for S, the vector [B;a;b;c] = [1;1;1;0] *)
+Example C02_dense_nonvacuous :
+  let cols := columns true c02_s in
+  map fst cols = ["B"; "a"; "b"; "c"] /\ NoDup (map fst cols) /\ ~ In (id_of c02_s) (map fst cols) /\
+  plain_shape c02_s /\
+  Forall2 (fun b v => fst b <= v <= snd b) (map snd cols) [1; 1; 1; 0] /\
+  Forall (sat_dense [1; 1; 1; 0]) (map (dense (map fst cols)) (encode true c02_s)) /\
+  snd (to_ge_polyhedron true c02_s) = [[1; 1; 0; 0; 1]; [0; -2; 1; 1; 0]].
+Proof.
+  intros cols. assert (Hc : cols = [("B",(0,1)); ("a",(0,1)); ("b",(0,1)); ("c",(0,1))]) by (vm_compute; reflexivity).
+  rewrite Hc. cbn [map fst snd].
+  split; [reflexivity|]. split.
+  { repeat constructor; cbn; intuition discriminate. }
+  split. { cbn. intuition discriminate. }
+  split. { cbn. intuition. }
+  split. { repeat constructor; cbn; lia. }
+  split. { vm_compute. repeat constructor; discriminate. }
+  vm_compute. reflexivity.
+Qed.
+Print Assumptions C02_dense_nonvacuous.
+
 Example C02_nonvacuous :
   inb c02_y c02_s /\ solver_safe c02_s = true /\ Forall (sat c02_y) (encode true c02_s) /\ eval c02_y c02_s = 1.
 Proof. cbn. repeat split; try lia; repeat (first [apply Forall_nil | apply Forall_cons]); unfold sat, lhs; cbn; lia. Qed.
